@@ -109,7 +109,8 @@ CLAIMED = {
              'row semantics). The model is compared exactly with the real constraint (cover helper, rows, ids) over random instances x '
              'settings; solved instances are audited against the certificate facts on sampled points of X.',
         note='exact sigma (solver tolerance outside the theorem; audit turns residuals into a delta); kernel basis needs mat@B=0 '
-             '(audited); ECOS only in the audit.',
+             '(checked on every constructed cone, with range B = ker mat by an exact rational rank; F26 repaired in /repo db10f52: '
+             'absolute rank threshold made certificates unsound for small exponents); ECOS only in the audit.',
         technique='Lean 4 proof (Mathlib real analysis: exp/log convexity) + model/implementation correspondence check + certificate audit',
         design_ref='DESIGN.md 4/C01'),
     'C02': dict(
